@@ -7,7 +7,18 @@
       the `td[..] = vzero * d * h` statement in front of them, `init_corners` the four corner assignments.
       `fteik2d_p2_decompose` ties them to the generated code by conversion.
    2. Geometric relations between states (`arel`): x-mirror, z-mirror, transposition.
-   3. Pairing theorems over R (all shapes, any number of iterations, heterogeneous medium).
+   3. Pairing theorems over R (all shapes, any number of iterations, heterogeneous medium, scratch line `td`
+      arbitrary on entry):
+        west_is_mirror_of_east       west phase on the x-mirrored problem  = x-mirror of the east phase
+        down_is_transpose_of_east    down phase on the transposed problem  = transpose of the east phase
+        up_is_transpose_of_west      up phase on the transposed problem    = transpose of the west phase
+        up_is_mirror_of_down         up phase on the z-mirrored problem    = z-mirror of the down phase
+      each also in explicit form (`..._explicit`) with the maps `mirror_x`, `mirror_z`, `transpose`,
+      `mirror_sgn_x`, `mirror_sgn_z`, `transpose_sgn` as functions and the conclusion cell by cell (all cells of the
+      grid, so untouched cells are covered too).
+   4. Non-vacuity: a closed instance, and the generated function evaluated on binary64 (all four loops write).
+   The two blocks inside one loop (line s+1 / line s) are instances of the same `blk_x` / `blk_z`, which is part of
+   what `fteik2d_p2_decompose` checks.
 *)
 From Coq Require Import ZArith List Bool Lia Reals Lra Psatz.
 From FT.lib Require Import Num Arr ArrLemmas.
@@ -230,3 +241,1052 @@ Proof.
 Qed.
 
 End Pieces.
+(* ========================================================================================== *)
+(* 2. geometric relations between arrays                                                        *)
+(* ========================================================================================== *)
+(* `a'` is the image of `a` under the index map `f` (values transported by `g`) on the index set `dom` *)
+Section Rel.
+Context {A : Type} (d : A).
+Variable dom : list Z -> Prop.
+Variable f : list Z -> list Z.
+Variable g : list Z -> A -> A.
+
+Definition arel (a a' : arr A) : Prop :=
+  wf a /\ wf a' /\
+  (forall ix, dom ix -> inb a ix = true /\ inb a' (f ix) = true) /\
+  (forall ix, dom ix -> get d a' (f ix) = g ix (get d a ix)).
+
+Hypothesis f_inj : forall ix iy, dom ix -> dom iy -> f ix = f iy -> ix = iy.
+
+Lemma arel_set a a' ix v : arel a a' -> dom ix -> arel (set a ix v) (set a' (f ix) (g ix v)).
+Proof.
+  intros (W & W' & Hin & Hg) Hd.
+  split; [apply wf_set, W|]. split; [apply wf_set, W'|]. split.
+  - intros iy Hy. rewrite !inb_set. apply Hin, Hy.
+  - intros iy Hy. destruct (Hin ix Hd) as [I1 I1']. destruct (Hin iy Hy) as [I2 I2'].
+    destruct (list_eq_dec_Z ix iy) as [<-|N].
+    + rewrite !get_set_same by assumption. reflexivity.
+    + rewrite !get_set_other; auto; intro E; apply N; apply f_inj; auto.
+Qed.
+
+Lemma arel_get a a' ix ix' : arel a a' -> dom ix -> ix' = f ix -> get d a' ix' = g ix (get d a ix).
+Proof. intros (_ & _ & _ & Hg) Hd ->. apply Hg, Hd. Qed.
+End Rel.
+
+(* index sets *)
+Definition dom1 (n : Z) (ix : list Z) : Prop := exists j, ix = [j] /\ 0 <= j < n.
+Definition dom2 (n0 n1 : Z) (ix : list Z) : Prop := exists i j, ix = [i; j] /\ 0 <= i < n0 /\ 0 <= j < n1.
+Definition dom3 (n0 n1 : Z) (ix : list Z) : Prop :=
+  exists i j k, ix = [i; j; k] /\ 0 <= i < n0 /\ 0 <= j < n1 /\ 0 <= k < 2.
+
+(* x-mirror with n columns: j -> n-1-j on the column index (second index of 2-D / 3-D arrays) *)
+Definition fmx (n : Z) (ix : list Z) : list Z :=
+  match ix with
+  | [i; j] => [i; n - 1 - j]
+  | [i; j; k] => [i; n - 1 - j; k]
+  | _ => ix
+  end.
+(* z-mirror with n rows *)
+Definition fmz (n : Z) (ix : list Z) : list Z :=
+  match ix with
+  | [i; j] => [n - 1 - i; j]
+  | [i; j; k] => [n - 1 - i; j; k]
+  | _ => ix
+  end.
+(* transposition; the component index k of the sign / gradient arrays is exchanged too *)
+Definition ftr (ix : list Z) : list Z :=
+  match ix with
+  | [i; j] => [j; i]
+  | [i; j; k] => [j; i; 1 - k]
+  | _ => ix
+  end.
+(* 1-D mirror on the scratch line `td` *)
+Definition fm1 (n : Z) (ix : list Z) : list Z :=
+  match ix with
+  | [j] => [n - 1 - j]
+  | _ => ix
+  end.
+(* value maps on the sign array: component 1 (x) changes sign under x-mirror, component 0 (z) under z-mirror *)
+Definition gneg (c : Z) (ix : list Z) (v : Z) : Z :=
+  match ix with
+  | [_; _; k] => if k =? c then - v else v
+  | _ => v
+  end.
+Definition gid {A} (ix : list Z) (v : A) : A := v.
+
+Lemma cons_inj {A} (a b : A) l m : a :: l = b :: m -> a = b /\ l = m.
+Proof. intros E. injection E. auto. Qed.
+Ltac linj E := repeat (apply cons_inj in E; let E1 := fresh "E" in destruct E as [E1 E]).
+
+Lemma fmx_inj2 n0 n1 ix iy : dom2 n0 n1 ix -> dom2 n0 n1 iy -> fmx n1 ix = fmx n1 iy -> ix = iy.
+Proof. intros (i & j & -> & _) (i' & j' & -> & _) E. unfold fmx, fmz, ftr in E. linj E. f_equal; [|f_equal]; lia. Qed.
+Lemma fmx_inj3 n0 n1 ix iy : dom3 n0 n1 ix -> dom3 n0 n1 iy -> fmx n1 ix = fmx n1 iy -> ix = iy.
+Proof. intros (i & j & k & -> & _) (i' & j' & k' & -> & _) E. unfold fmx, fmz, ftr in E. linj E.
+  f_equal; [|f_equal; [|f_equal]]; lia. Qed.
+Lemma fmz_inj2 n0 n1 ix iy : dom2 n0 n1 ix -> dom2 n0 n1 iy -> fmz n0 ix = fmz n0 iy -> ix = iy.
+Proof. intros (i & j & -> & _) (i' & j' & -> & _) E. unfold fmx, fmz, ftr in E. linj E. f_equal; [|f_equal]; lia. Qed.
+Lemma fmz_inj3 n0 n1 ix iy : dom3 n0 n1 ix -> dom3 n0 n1 iy -> fmz n0 ix = fmz n0 iy -> ix = iy.
+Proof. intros (i & j & k & -> & _) (i' & j' & k' & -> & _) E. unfold fmx, fmz, ftr in E. linj E.
+  f_equal; [|f_equal; [|f_equal]]; lia. Qed.
+Lemma ftr_inj2 n0 n1 ix iy : dom2 n0 n1 ix -> dom2 n0 n1 iy -> ftr ix = ftr iy -> ix = iy.
+Proof. intros (i & j & -> & _) (i' & j' & -> & _) E. unfold fmx, fmz, ftr in E. linj E. f_equal; [|f_equal]; lia. Qed.
+Lemma ftr_inj3 n0 n1 ix iy : dom3 n0 n1 ix -> dom3 n0 n1 iy -> ftr ix = ftr iy -> ix = iy.
+Proof. intros (i & j & k & -> & _) (i' & j' & k' & -> & _) E. unfold fmx, fmz, ftr in E. linj E.
+  f_equal; [|f_equal; [|f_equal]]; lia. Qed.
+
+Lemma dom2_intro n0 n1 i j : 0 <= i < n0 -> 0 <= j < n1 -> dom2 n0 n1 [i; j].
+Proof. intros. exists i, j. auto. Qed.
+Lemma dom3_intro n0 n1 i j k : 0 <= i < n0 -> 0 <= j < n1 -> 0 <= k < 2 -> dom3 n0 n1 [i; j; k].
+Proof. intros. exists i, j, k. auto. Qed.
+
+(* ========================================================================================== *)
+(* 3. the analytic operators under mirroring (over R)                                            *)
+(* ========================================================================================== *)
+Section OpsR.
+Open Scope R_scope.
+Implicit Types (dz dx zsa xsa v vzero vref tauv taue tauev t0c tzc txc dzi dxi dz2i dx2i : R) (i j sgz sgx : Z).
+
+(* coordinates relative to the source change sign under a mirror of n nodes *)
+Lemma mir_coord (n k : Z) (a : R) : IZR (n - 1 - k) - (IZR (n - 1) - a) = - (IZR k - a).
+Proof. rewrite !minus_IZR. ring. Qed.
+
+Lemma t_ana_mirror_x i j j' dz dx zsa xsa xsa' v :
+  IZR j' - xsa' = - (IZR j - xsa) -> t_ana i j' dz dx zsa xsa' v = t_ana i j dz dx zsa xsa v.
+Proof. intros E. rewrite !t_ana_exact, E. f_equal. f_equal. ring. Qed.
+Lemma t_ana_mirror_z i i' j dz dx zsa zsa' xsa v :
+  IZR i' - zsa' = - (IZR i - zsa) -> t_ana i' j dz dx zsa' xsa v = t_ana i j dz dx zsa xsa v.
+Proof. intros E. rewrite !t_ana_exact, E. f_equal. f_equal. ring. Qed.
+
+(* the x-derivative changes sign under the x-mirror, the z-derivative under the z-mirror *)
+Lemma t_anad_mirror_x i j j' dz dx zsa xsa xsa' v :
+  IZR j' - xsa' = - (IZR j - xsa) ->
+  t_anad i j' dz dx zsa xsa' v = let '(t, tzc, txc) := t_anad i j dz dx zsa xsa v in (t, tzc, - txc).
+Proof.
+  intros E. rewrite !t_anad_exact. rewrite (t_ana_mirror_x i j j' dz dx zsa xsa xsa' v E). cbv zeta beta iota.
+  rewrite E. destruct (Rlt_dec _ _); f_equal; unfold Rdiv; ring.
+Qed.
+Lemma t_anad_mirror_z i i' j dz dx zsa zsa' xsa v :
+  IZR i' - zsa' = - (IZR i - zsa) ->
+  t_anad i' j dz dx zsa' xsa v = let '(t, tzc, txc) := t_anad i j dz dx zsa xsa v in (t, - tzc, txc).
+Proof.
+  intros E. rewrite !t_anad_exact. rewrite (t_ana_mirror_z i i' j dz dx zsa zsa' xsa v E). cbv zeta beta iota.
+  rewrite E. destruct (Rlt_dec _ _); (apply f_equal2; [apply f_equal2|]); try reflexivity; unfold Rdiv; ring.
+Qed.
+
+(* delta only sees the products sgntx * txc and sgntz * tzc *)
+Lemma delta_mirror_x (t1 : R) tauv taue tauev t0c tzc txc dzi dxi dz2i dx2i vzero vref sgz sgx :
+  delta t1 tauv taue tauev t0c tzc (- txc) dzi dxi dz2i dx2i vzero vref sgz (- sgx)
+  = delta t1 tauv taue tauev t0c tzc txc dzi dxi dz2i dx2i vzero vref sgz sgx.
+Proof.
+  rewrite !delta_eq.
+  assert (Eb : delta_b tauv taue tauev tzc (- txc) dzi dxi dz2i dx2i sgz (- sgx)
+             = delta_b tauv taue tauev tzc txc dzi dxi dz2i dx2i sgz sgx)
+    by (unfold delta_b; rewrite opp_IZR; ring).
+  assert (Ed : delta_d tauv taue tauev tzc (- txc) dzi dxi dz2i dx2i vzero vref sgz (- sgx)
+             = delta_d tauv taue tauev tzc txc dzi dxi dz2i dx2i vzero vref sgz sgx)
+    by (unfold delta_d, delta_c, delta_b; cbv zeta; rewrite opp_IZR; ring).
+  rewrite Eb, Ed. reflexivity.
+Qed.
+Lemma delta_mirror_z (t1 : R) tauv taue tauev t0c tzc txc dzi dxi dz2i dx2i vzero vref sgz sgx :
+  delta t1 tauv taue tauev t0c (- tzc) txc dzi dxi dz2i dx2i vzero vref (- sgz) sgx
+  = delta t1 tauv taue tauev t0c tzc txc dzi dxi dz2i dx2i vzero vref sgz sgx.
+Proof.
+  rewrite !delta_eq.
+  assert (Eb : delta_b tauv taue tauev (- tzc) txc dzi dxi dz2i dx2i (- sgz) sgx
+             = delta_b tauv taue tauev tzc txc dzi dxi dz2i dx2i sgz sgx)
+    by (unfold delta_b; rewrite opp_IZR; ring).
+  assert (Ed : delta_d tauv taue tauev (- tzc) txc dzi dxi dz2i dx2i vzero vref (- sgz) sgx
+             = delta_d tauv taue tauev tzc txc dzi dxi dz2i dx2i vzero vref sgz sgx)
+    by (unfold delta_d, delta_c, delta_b; cbv zeta; rewrite opp_IZR; ring).
+  rewrite Eb, Ed. reflexivity.
+Qed.
+
+(* the distances along the line *)
+Lemma abs_mirror (a b : R) : a = - b -> Rabs a = Rabs b.
+Proof. intros ->. apply Rabs_Ropp. Qed.
+End OpsR.
+
+(* ========================================================================================== *)
+(* 4. relations between the states of the loops                                                  *)
+(* ========================================================================================== *)
+(* x-mirror *)
+Definition RelTTx (nz nx : Z) : arr R -> arr R -> Prop := arel 0%R (dom2 nz nx) (fmx nx) gid.
+Definition RelSGx (nz nx : Z) : arr Z -> arr Z -> Prop := arel 0%Z (dom3 nz nx) (fmx nx) (gneg 1).
+(* z-mirror *)
+Definition RelTTz (nz nx : Z) : arr R -> arr R -> Prop := arel 0%R (dom2 nz nx) (fmz nz) gid.
+Definition RelSGz (nz nx : Z) : arr Z -> arr Z -> Prop := arel 0%Z (dom3 nz nx) (fmz nz) (gneg 0).
+(* transposition *)
+Definition RelTTt (nz nx : Z) : arr R -> arr R -> Prop := arel 0%R (dom2 nz nx) ftr gid.
+Definition RelSGt (nz nx : Z) : arr Z -> arr Z -> Prop := arel 0%Z (dom3 nz nx) ftr gid.
+
+Lemma relTTx_get nz nx tt tt' i j j' :
+  RelTTx nz nx tt tt' -> 0 <= i < nz -> 0 <= j < nx -> j' = nx - 1 - j -> get 0%R tt' [i; j'] = get 0%R tt [i; j].
+Proof. intros H Hi Hj ->. exact (arel_get 0%R _ _ _ tt tt' [i; j] _ H (dom2_intro _ _ _ _ Hi Hj) eq_refl). Qed.
+Lemma relTTz_get nz nx tt tt' i i' j :
+  RelTTz nz nx tt tt' -> 0 <= i < nz -> 0 <= j < nx -> i' = nz - 1 - i -> get 0%R tt' [i'; j] = get 0%R tt [i; j].
+Proof. intros H Hi Hj ->. exact (arel_get 0%R _ _ _ tt tt' [i; j] _ H (dom2_intro _ _ _ _ Hi Hj) eq_refl). Qed.
+Lemma relTTt_get nz nx tt tt' i j :
+  RelTTt nz nx tt tt' -> 0 <= i < nz -> 0 <= j < nx -> get 0%R tt' [j; i] = get 0%R tt [i; j].
+Proof. intros H Hi Hj. exact (arel_get 0%R _ _ _ tt tt' [i; j] _ H (dom2_intro _ _ _ _ Hi Hj) eq_refl). Qed.
+
+Lemma relTTx_set nz nx tt tt' i j j' v :
+  RelTTx nz nx tt tt' -> 0 <= i < nz -> 0 <= j < nx -> j' = nx - 1 - j ->
+  RelTTx nz nx (set tt [i; j] v) (set tt' [i; j'] v).
+Proof. intros H Hi Hj ->.
+  exact (arel_set 0%R _ _ _ (fmx_inj2 nz nx) tt tt' [i; j] v H (dom2_intro _ _ _ _ Hi Hj)). Qed.
+Lemma relTTz_set nz nx tt tt' i i' j v :
+  RelTTz nz nx tt tt' -> 0 <= i < nz -> 0 <= j < nx -> i' = nz - 1 - i ->
+  RelTTz nz nx (set tt [i; j] v) (set tt' [i'; j] v).
+Proof. intros H Hi Hj ->.
+  exact (arel_set 0%R _ _ _ (fmz_inj2 nz nx) tt tt' [i; j] v H (dom2_intro _ _ _ _ Hi Hj)). Qed.
+Lemma relTTt_set nz nx tt tt' i j v :
+  RelTTt nz nx tt tt' -> 0 <= i < nz -> 0 <= j < nx ->
+  RelTTt nz nx (set tt [i; j] v) (set tt' [j; i] v).
+Proof. intros H Hi Hj.
+  exact (arel_set 0%R _ _ _ (ftr_inj2 nz nx) tt tt' [i; j] v H (dom2_intro _ _ _ _ Hi Hj)). Qed.
+
+(* the two sign components written at one node *)
+Lemma relSGx_set2 nz nx sg sg' i j j' a b :
+  RelSGx nz nx sg sg' -> 0 <= i < nz -> 0 <= j < nx -> j' = nx - 1 - j ->
+  RelSGx nz nx (set (set sg [i; j; 0] a) [i; j; 1] b) (set (set sg' [i; j'; 0] a) [i; j'; 1] (- b)).
+Proof. intros H Hi Hj ->.
+  pose proof (arel_set 0%Z _ _ _ (fmx_inj3 nz nx) sg sg' [i; j; 0] a H
+                (dom3_intro nz nx i j 0 Hi Hj ltac:(lia))) as H1.
+  exact (arel_set 0%Z _ _ _ (fmx_inj3 nz nx) _ _ [i; j; 1] b H1 (dom3_intro nz nx i j 1 Hi Hj ltac:(lia))). Qed.
+Lemma relSGz_set2 nz nx sg sg' i i' j a b :
+  RelSGz nz nx sg sg' -> 0 <= i < nz -> 0 <= j < nx -> i' = nz - 1 - i ->
+  RelSGz nz nx (set (set sg [i; j; 0] a) [i; j; 1] b) (set (set sg' [i'; j; 0] (- a)) [i'; j; 1] b).
+Proof. intros H Hi Hj ->.
+  pose proof (arel_set 0%Z _ _ _ (fmz_inj3 nz nx) sg sg' [i; j; 0] a H
+                (dom3_intro nz nx i j 0 Hi Hj ltac:(lia))) as H1.
+  exact (arel_set 0%Z _ _ _ (fmz_inj3 nz nx) _ _ [i; j; 1] b H1 (dom3_intro nz nx i j 1 Hi Hj ltac:(lia))). Qed.
+
+(* two writes at different places commute *)
+Lemma upd_comm {A} (l : list A) : forall n m x y, n <> m -> upd (upd l n x) m y = upd (upd l m y) n x.
+Proof. induction l as [|h t IH]; intros [|n] [|m] x y N; simpl; auto; try congruence. f_equal. apply IH. congruence. Qed.
+Lemma set_comm {A} (a : arr A) p q x y :
+  inb a p = true -> inb a q = true -> p <> q -> set (set a p x) q y = set (set a q y) p x.
+Proof.
+  intros Hp Hq N. unfold set; simpl. f_equal. apply upd_comm. intro E.
+  apply N. apply (flat_inj (shape a)); auto.
+  pose proof (flat_bound _ _ Hp). pose proof (flat_bound _ _ Hq). apply Z2Nat.inj in E; lia.
+Qed.
+Lemma relSGt_set2 nz nx sg sg' i j a b :
+  RelSGt nz nx sg sg' -> 0 <= i < nz -> 0 <= j < nx ->
+  RelSGt nz nx (set (set sg [i; j; 0] a) [i; j; 1] b) (set (set sg' [j; i; 0] b) [j; i; 1] a).
+Proof. intros H Hi Hj.
+  assert (D0 : dom3 nz nx [i; j; 0]) by (apply dom3_intro; lia).
+  assert (D1 : dom3 nz nx [i; j; 1]) by (apply dom3_intro; lia).
+  pose proof (arel_set 0%Z _ _ _ (ftr_inj3 nz nx) sg sg' [i; j; 0] a H D0) as H1.
+  pose proof (arel_set 0%Z _ _ _ (ftr_inj3 nz nx) _ _ [i; j; 1] b H1 D1) as H2.
+  destruct H as (_ & _ & Hin & _). destruct (Hin _ D0) as [_ I0]. destruct (Hin _ D1) as [_ I1].
+  rewrite (set_comm sg' [j; i; 0] [j; i; 1] b a); [exact H2 | exact I1 | exact I0 | intro E; discriminate E].
+Qed.
+
+(* ========================================================================================== *)
+(* 5. x-mirror: west is the mirror image of east                                                 *)
+(* ========================================================================================== *)
+Ltac numR' := cbn [nadd nsub nmul ndiv nsqrt nabs nneg nltb nleb neqb nofZ nofQ NumR].
+
+Lemma blk_x_mirror_x nz nx (dx dz : R) grad (vzero xsa xsa' zsa dxi dx2i : R) row (dzw : R) sgz sgx jp j jp' j'
+      (vref tauv tauev : R) (td td' tt tt' : arr R) (sg sg' : arr Z) :
+  RelTTx nz nx tt tt' -> (grad = true -> RelSGx nz nx sg sg') ->
+  0 <= row < nz -> 0 <= j < nx -> 0 <= jp < nx -> j' = nx - 1 - j -> jp' = nx - 1 - jp ->
+  xsa' = (IZR (nx - 1) - xsa)%R ->
+  get 0%R td' [j'] = get 0%R td [j] ->
+  let r := blk_x dx dz grad vzero xsa zsa dxi dx2i row dzw sgz sgx jp j vref tauv tauev td tt sg in
+  let r' := blk_x dx dz grad vzero xsa' zsa dxi dx2i row dzw sgz (- sgx) jp' j' vref tauv tauev td' tt' sg' in
+  RelTTx nz nx (fst r) (fst r') /\ (grad = true -> RelSGx nz nx (snd r) (snd r')).
+Proof.
+  intros HT HS Hrow Hj Hjp Ej Ejp Exsa Htd r r'. subst r r'. unfold blk_x. cbv zeta.
+  assert (G1 : get 0%R tt' [row; jp'] = get 0%R tt [row; jp]) by (eapply relTTx_get; eauto).
+  assert (G2 : get 0%R tt' [row; j'] = get 0%R tt [row; j]) by (eapply relTTx_get; eauto).
+  assert (C1 : (IZR jp' - xsa' = - (IZR jp - xsa))%R) by (subst jp' xsa'; apply mir_coord).
+  assert (C2 : (IZR j' - xsa' = - (IZR j - xsa))%R) by (subst j' xsa'; apply mir_coord).
+  change (@nofZ R NumR 0) with 0%R.
+  rewrite G1, G2, Htd.
+  rewrite (t_ana_mirror_x row jp jp' dz dx zsa xsa xsa' vzero C1).
+  rewrite (t_anad_mirror_x row j j' dz dx zsa xsa xsa' vzero C2).
+  destruct (t_anad row j dz dx zsa xsa vzero) as [[t0c tzc] txc]. cbn [fst snd].
+  rewrite delta_mirror_x.
+  match goal with |- context [if ?c then _ else _] => destruct c end; [|split; [exact HT | exact HS]].
+  match goal with |- context [if ?c then _ else _] => destruct c end; cbn [fst snd]; [|split; [exact HT | exact HS]].
+  split.
+  - apply relTTx_set; assumption.
+  - intros Hg. rewrite Hg. apply relSGx_set2; auto.
+Qed.
+
+(* the medium: cell (i, c) of `slow` <-> cell (i, nx-2-c) *)
+Definition RelSLx (nz nx : Z) : arr R -> arr R -> Prop := arel 0%R (dom2 (nz - 1) (nx - 1)) (fmx (nx - 1)) gid.
+Definition RelSLz (nz nx : Z) : arr R -> arr R -> Prop := arel 0%R (dom2 (nz - 1) (nx - 1)) (fmz (nz - 1)) gid.
+Definition RelSLt (nz nx : Z) : arr R -> arr R -> Prop := arel 0%R (dom2 (nz - 1) (nx - 1)) ftr gid.
+
+(* states (td, tt, ttsgn) of an east loop about to run column k and of a west loop about to run column nx-1-k:
+   the grids are mirror images and the last value written on the scratch line agrees *)
+Definition SimX (nz nx M M' : Z) (grad : bool) (k : Z) (st st' : arr R * arr R * arr Z) : Prop :=
+  wf (fst (fst st)) /\ wf (fst (fst st')) /\ shape (fst (fst st)) = [M] /\ shape (fst (fst st')) = [M'] /\
+  get 0%R (fst (fst st')) [nx - k] = get 0%R (fst (fst st)) [k - 1] /\
+  RelTTx nz nx (snd (fst st)) (snd (fst st')) /\
+  (grad = true -> RelSGx nz nx (snd st) (snd st')).
+
+Ltac idx_eq := repeat match goal with |- _ :: _ = _ :: _ => apply f_equal2; [lia|] end; try reflexivity.
+
+Lemma get1_set_same (a : arr R) M j v : wf a -> shape a = [M] -> 0 <= j < M -> get 0%R (set a [j] v) [j] = v.
+Proof. intros W S Hj. apply get_set_same; [exact W | eapply inb1_true; eauto]. Qed.
+Lemma get1_set_other (a : arr R) M j k v :
+  shape a = [M] -> 0 <= j < M -> 0 <= k < M -> j <> k -> get 0%R (set a [j] v) [k] = get 0%R a [k].
+Proof. intros S Hj Hk N. apply get_set_other; try (eapply inb1_true; eauto). intro E. apply N. congruence. Qed.
+
+Lemma east_west_step nz nx M M' (dx dz : R) grad slow slow' (vzero xsa xsa' zsa : R) zsi (dzu dzd dxi dx2i : R) k st st' :
+  RelSLx nz nx slow slow' -> nx <= M -> nx <= M' -> 0 <= zsi < nz - 1 -> 1 <= k < nx ->
+  xsa' = (IZR (nx - 1) - xsa)%R ->
+  SimX nz nx M M' grad k st st' ->
+  SimX nz nx M M' grad (k + 1)
+    (east_body dx dz grad slow vzero xsa zsa zsi dzu dzd dxi dx2i k st)
+    (west_body dx dz grad slow' vzero xsa' zsa zsi dzu dzd dxi dx2i (nx - 1 - k) st').
+Proof.
+  intros HSL HM HM' Hzsi Hk Exsa. destruct st as [[td tt] sg], st' as [[td' tt'] sg'].
+  unfold SimX. cbn [fst snd]. intros (W & W' & S & S' & Htd & HT & HS).
+  cbv beta zeta delta [east_body west_body]. cbn [fst snd].
+  change (@nofZ R NumR 0) with 0%R.
+  set (j' := nx - 1 - k).
+  set (vref := get 0%R slow [zsi; k - 1]).
+  assert (Ev : get 0%R slow' [zsi; j'] = vref).
+  { apply (arel_get 0%R _ _ _ slow slow' [zsi; k - 1] [zsi; j'] HSL).
+    - apply dom2_intro; lia.
+    - unfold fmx, j'. idx_eq. }
+  rewrite Ev. replace (j' + 1) with (nx - k) by (unfold j'; lia). rewrite Htd.
+  set (v := nadd (get 0%R td [k - 1]) (nmul dx vref)).
+  rewrite (get1_set_same td M k v W S ltac:(lia)).
+  rewrite (get1_set_same td' M' j' v W' S' ltac:(unfold j'; lia)).
+  rewrite (get1_set_other td M k (k - 1) v S ltac:(lia) ltac:(lia) ltac:(lia)).
+  rewrite (get1_set_other td' M' j' (nx - k) v S' ltac:(unfold j'; lia) ltac:(lia) ltac:(unfold j'; lia)).
+  rewrite Htd.
+  assert (C2 : (IZR j' - xsa' = - (IZR k - xsa))%R) by (unfold j'; subst xsa'; apply mir_coord).
+  assert (A1 : nabs (nsub (nofZ j') xsa') = nabs (nsub (nofZ k) xsa)).
+  { numR'. apply abs_mirror. exact C2. }
+  assert (A2 : nabs (nadd (nsub (nofZ j') xsa') (nofZ 1)) = nabs (nsub (nsub (nofZ k) xsa) (nofZ 1))).
+  { numR'. apply abs_mirror. lra. }
+  rewrite A1, A2.
+  set (tauv := nsub v _). set (tauev := nsub (get 0%R td [k - 1]) _).
+  set (tdn := set td [k] v). set (tdn' := set td' [j'] v).
+  assert (Htdn : get 0%R tdn' [j'] = get 0%R tdn [k]).
+  { unfold tdn, tdn'. rewrite (get1_set_same td M k v W S ltac:(lia)).
+    rewrite (get1_set_same td' M' j' v W' S' ltac:(unfold j'; lia)). reflexivity. }
+  destruct (blk_x_mirror_x nz nx dx dz grad vzero xsa xsa' zsa dxi dx2i (zsi + 1) dzd 1 1 (k - 1) k (nx - k) j'
+              vref tauv tauev tdn tdn' tt tt' sg sg' HT HS ltac:(lia) ltac:(lia) ltac:(lia) eq_refl
+              ltac:(lia) Exsa Htdn) as [HT1 HS1].
+  match type of HT1 with RelTTx _ _ (fst ?b) (fst ?b') => set (B1 := b) in *; set (B1' := b') in * end.
+  destruct (blk_x_mirror_x nz nx dx dz grad vzero xsa xsa' zsa dxi dx2i zsi dzu (-1) 1 (k - 1) k (nx - k) j'
+              vref tauv tauev tdn tdn' (fst B1) (fst B1') (snd B1) (snd B1') HT1 HS1 ltac:(lia) ltac:(lia) ltac:(lia) eq_refl
+              ltac:(lia) Exsa Htdn) as [HT2 HS2].
+  split; [apply wf_set, W|]. split; [apply wf_set, W'|]. split; [exact S|]. split; [exact S'|].
+  split; [|split; [exact HT2 | exact HS2]].
+  replace (nx - (k + 1)) with j' by (unfold j'; lia). replace (k + 1 - 1) with k by lia. exact Htdn.
+Qed.
+
+(* ---------- loops over consecutive indices ---------- *)
+Definition upto (a : Z) (n : nat) : list Z := map (fun k => a + Z.of_nat k) (seq 0 n).
+Lemma upto_S a n : upto a (S n) = a :: upto (a + 1) n.
+Proof. unfold upto. cbn [seq map]. f_equal; [lia|]. rewrite <- seq_shift, map_map. apply map_ext. intros; lia. Qed.
+Lemma pyrange_up a b : pyrange a b 1 = upto a (Z.to_nat (b - a)).
+Proof.
+  unfold pyrange, upto. change (0 <? 1) with true. cbv iota.
+  replace ((b - a + 1 - 1) / 1) with (b - a) by (rewrite Z.div_1_r; lia). apply map_ext. intros; lia.
+Qed.
+(* a descending range is the image of an ascending one under i -> c - i *)
+Lemma pyrange_down a c : pyrange a (-1) (-1) = map (fun i => c - i) (upto (c - a) (Z.to_nat (a + 1))).
+Proof.
+  unfold pyrange, upto. change (0 <? -1) with false. change (-1 <? 0) with true. cbv iota. change (- -1) with 1.
+  replace ((a - -1 + 1 - 1) / 1) with (a + 1) by (rewrite Z.div_1_r; lia).
+  rewrite map_map. apply map_ext. intros; lia.
+Qed.
+
+(* two loops running in lock step over images of the same ascending range; the relation may depend on the position *)
+Lemma for_list_sim {S1 S2} (Rl : Z -> S1 -> S2 -> Prop) (b1 : Z -> S1 -> S1) (b2 : Z -> S2 -> S2) (f1 f2 : Z -> Z) n :
+  forall a s1 s2, Rl a s1 s2 ->
+    (forall p x y, a <= p < a + Z.of_nat n -> Rl p x y -> Rl (p + 1) (b1 (f1 p) x) (b2 (f2 p) y)) ->
+    Rl (a + Z.of_nat n) (for_list (map f1 (upto a n)) b1 s1) (for_list (map f2 (upto a n)) b2 s2).
+Proof.
+  induction n as [|n IH]; intros a s1 s2 H0 Hs.
+  - cbn. replace (a + 0) with a by lia. exact H0.
+  - rewrite upto_S. cbn [map]. rewrite !for_list_cons.
+    replace (a + Z.of_nat (S n)) with ((a + 1) + Z.of_nat n) by lia.
+    apply IH; [apply Hs; [lia | exact H0] | intros p x y Hp; apply Hs; lia].
+Qed.
+
+(* (a), loops only *)
+Theorem west_loop_is_mirror_of_east_loop nz nx M M' (dx dz : R) grad slow slow' (vzero xsa xsa' zsa : R) xsi xsi' zsi
+    (dzu dzd dxi dx2i : R) st st' :
+  RelSLx nz nx slow slow' -> nx <= M -> nx <= M' -> 0 <= zsi < nz - 1 -> 0 <= xsi < nx - 1 ->
+  xsa' = (IZR (nx - 1) - xsa)%R -> xsi' = nx - 2 - xsi ->
+  SimX nz nx M M' grad (xsi + 2) st st' ->
+  SimX nz nx M M' grad nx
+    (for_list (pyrange (xsi + 2) nx 1) (east_body dx dz grad slow vzero xsa zsa zsi dzu dzd dxi dx2i) st)
+    (for_list (pyrange (xsi' - 1) (-1) (-1)) (west_body dx dz grad slow' vzero xsa' zsa zsi dzu dzd dxi dx2i) st').
+Proof.
+  intros HSL HM HM' Hzsi Hxsi Exsa Exsi H0.
+  rewrite pyrange_up, (pyrange_down (xsi' - 1) (nx - 1)).
+  replace (nx - 1 - (xsi' - 1)) with (xsi + 2) by lia.
+  replace (Z.to_nat (xsi' - 1 + 1)) with (Z.to_nat (nx - (xsi + 2))) by (f_equal; lia).
+  set (n := Z.to_nat (nx - (xsi + 2))).
+  assert (En : xsi + 2 + Z.of_nat n = nx) by lia.
+  pose proof (for_list_sim (SimX nz nx M M' grad)
+                (east_body dx dz grad slow vzero xsa zsa zsi dzu dzd dxi dx2i)
+                (west_body dx dz grad slow' vzero xsa' zsa zsi dzu dzd dxi dx2i)
+                (fun x => x) (fun i => nx - 1 - i) n (xsi + 2) st st' H0) as L.
+  rewrite En, map_id in L. apply L.
+  intros p x y Hp Hxy. apply east_west_step; auto. lia.
+Qed.
+
+(* (a) WEST IS THE MIRROR IMAGE OF EAST.  The scratch lines `td`, `td'` are arbitrary (only their sizes matter): the
+   phases seed them themselves.  `dzu dzd` are the same reals on both sides, the x-distance `dxe` of the east side
+   is the `dxw` of the west side. *)
+Theorem west_is_mirror_of_east nz nx M M' (dx dz : R) grad slow slow' (vzero xsa xsa' : R) xsi xsi' (zsa : R) zsi
+    (dzu dzd dxe : R) td td' tt tt' sg sg' :
+  RelSLx nz nx slow slow' ->
+  wf td -> wf td' -> shape td = [M] -> shape td' = [M'] -> nx <= M -> nx <= M' ->
+  0 <= zsi < nz - 1 -> 0 <= xsi < nx - 1 ->
+  xsa' = (IZR (nx - 1) - xsa)%R -> xsi' = nx - 2 - xsi ->
+  RelTTx nz nx tt tt' -> (grad = true -> RelSGx nz nx sg sg') ->
+  let r := east_phase dx dz grad nx slow vzero xsa xsi zsa zsi dzu dzd dxe (td, tt, sg) in
+  let r' := west_phase dx dz grad slow' vzero xsa' xsi' zsa zsi dzu dzd dxe (td', tt', sg') in
+  RelTTx nz nx (snd (fst r)) (snd (fst r')) /\ (grad = true -> RelSGx nz nx (snd r) (snd r')).
+Proof.
+  intros HSL W W' S S' HM HM' Hzsi Hxsi Exsa Exsi HT HS r r'. subst r r'.
+  unfold east_phase, west_phase. cbv zeta. cbn [fst snd].
+  match goal with |- context [for_list ?l (east_body ?a1 ?a2 ?a3 ?a4 ?a5 ?a6 ?a7 ?a8 ?a9 ?a10 ?a11 ?a12) ?s] =>
+    match goal with |- context [for_list ?l' (west_body _ _ _ ?sl' _ ?xa' _ _ _ _ _ _) ?s'] =>
+      pose proof (west_loop_is_mirror_of_east_loop nz nx M M' a1 a2 a3 a4 sl' a5 a6 xa' a7 xsi xsi' a8 a9 a10 a11 a12 s s'
+                    HSL HM HM' Hzsi Hxsi Exsa Exsi) as L end end.
+  destruct L as (_ & _ & _ & _ & _ & HT' & HS'); [|split; assumption].
+  unfold SimX. cbn [fst snd].
+  split; [apply wf_set, W|]. split; [apply wf_set, W'|]. split; [exact S|]. split; [exact S'|].
+  split; [|split; assumption].
+  replace (nx - (xsi + 2)) with xsi' by lia. replace (xsi + 2 - 1) with (xsi + 1) by lia.
+  rewrite (get1_set_same td M (xsi + 1) _ W S ltac:(lia)).
+  rewrite (get1_set_same td' M' xsi' _ W' S' ltac:(lia)). reflexivity.
+Qed.
+
+(* ========================================================================================== *)
+(* 6. transposition: down is the transpose of east, up the transpose of west                    *)
+(* ========================================================================================== *)
+(* a z-block on the transposed data is the transpose of the x-block: dz <-> dx, zsa <-> xsa, the roles of the two
+   signs and of (tauv, taue) are exchanged *)
+Lemma blk_z_transpose_of_blk_x nz nx (dx dz : R) grad (vzero xsa zsa dxi dx2i : R) row (dzw : R) sgz sgx jp j
+      (vref tauv tauev : R) (td td' tt tt' : arr R) (sg sg' : arr Z) :
+  RelTTt nz nx tt tt' -> (grad = true -> RelSGt nz nx sg sg') ->
+  0 <= row < nz -> 0 <= j < nx -> 0 <= jp < nx ->
+  get 0%R td' [j] = get 0%R td [j] ->
+  let r := blk_x dx dz grad vzero xsa zsa dxi dx2i row dzw sgz sgx jp j vref tauv tauev td tt sg in
+  let r' := blk_z dz dx grad vzero zsa xsa dxi dx2i row dzw sgx sgz jp j vref tauv tauev td' tt' sg' in
+  RelTTt nz nx (fst r) (fst r') /\ (grad = true -> RelSGt nz nx (snd r) (snd r')).
+Proof.
+  intros HT HS Hrow Hj Hjp Htd r r'. subst r r'. unfold blk_x, blk_z. cbv zeta.
+  assert (G1 : get 0%R tt' [jp; row] = get 0%R tt [row; jp]) by (eapply relTTt_get; eauto).
+  assert (G2 : get 0%R tt' [j; row] = get 0%R tt [row; j]) by (eapply relTTt_get; eauto).
+  change (@nofZ R NumR 0) with 0%R.
+  rewrite G1, G2, Htd.
+  rewrite (t_ana_swap jp row dx dz xsa zsa vzero).
+  rewrite (t_anad_swap j row dx dz xsa zsa vzero).
+  destruct (t_anad row j dz dx zsa xsa vzero) as [[t0c tzc] txc]. cbn [fst snd].
+  rewrite (delta_swap (get 0%R tt [row; j]) (nsub (get 0%R tt [row; jp]) (t_ana row jp dz dx zsa xsa vzero))).
+  match goal with |- context [if ?c then _ else _] => destruct c end; [|split; [exact HT | exact HS]].
+  match goal with |- context [if ?c then _ else _] => destruct c end; cbn [fst snd]; [|split; [exact HT | exact HS]].
+  split.
+  - apply relTTt_set; assumption.
+  - intros Hg. rewrite Hg. apply relSGt_set2; auto.
+Qed.
+
+(* states of an x-loop and of a z-loop on the transposed data; `p` is the line index written last *)
+Definition SimT (nz nx M M' : Z) (grad : bool) (p : Z) (st st' : arr R * arr R * arr Z) : Prop :=
+  wf (fst (fst st)) /\ wf (fst (fst st')) /\ shape (fst (fst st)) = [M] /\ shape (fst (fst st')) = [M'] /\
+  get 0%R (fst (fst st')) [p] = get 0%R (fst (fst st)) [p] /\
+  RelTTt nz nx (snd (fst st)) (snd (fst st')) /\
+  (grad = true -> RelSGt nz nx (snd st) (snd st')).
+
+Lemma relSLt_get nz nx slow slow' i j :
+  RelSLt nz nx slow slow' -> 0 <= i < nz - 1 -> 0 <= j < nx - 1 -> get 0%R slow' [j; i] = get 0%R slow [i; j].
+Proof. intros H Hi Hj. exact (arel_get 0%R _ _ _ slow slow' [i; j] _ H (dom2_intro _ _ _ _ Hi Hj) eq_refl). Qed.
+
+Lemma east_down_step nz nx M M' (dx dz : R) grad slow slow' (vzero xsa zsa : R) zsi (dzu dzd dxi dx2i : R) k st st' :
+  RelSLt nz nx slow slow' -> nx <= M -> nx <= M' -> 0 <= zsi < nz - 1 -> 1 <= k < nx ->
+  SimT nz nx M M' grad (k - 1) st st' ->
+  SimT nz nx M M' grad k
+    (east_body dx dz grad slow vzero xsa zsa zsi dzu dzd dxi dx2i k st)
+    (down_body dz dx grad slow' vzero zsa xsa zsi dzu dzd dxi dx2i k st').
+Proof.
+  intros HSL HM HM' Hzsi Hk. destruct st as [[td tt] sg], st' as [[td' tt'] sg'].
+  unfold SimT. cbn [fst snd]. intros (W & W' & S & S' & Htd & HT & HS).
+  cbv beta zeta delta [east_body down_body]. cbn [fst snd].
+  change (@nofZ R NumR 0) with 0%R.
+  rewrite (relSLt_get nz nx slow slow' zsi (k - 1) HSL Hzsi ltac:(lia)).
+  set (vref := get 0%R slow [zsi; k - 1]).
+  rewrite Htd.
+  set (v := nadd (get 0%R td [k - 1]) (nmul dx vref)).
+  rewrite (get1_set_same td M k v W S ltac:(lia)).
+  rewrite (get1_set_same td' M' k v W' S' ltac:(lia)).
+  rewrite (get1_set_other td M k (k - 1) v S ltac:(lia) ltac:(lia) ltac:(lia)).
+  rewrite (get1_set_other td' M' k (k - 1) v S' ltac:(lia) ltac:(lia) ltac:(lia)).
+  rewrite Htd.
+  set (tauv := nsub v _). set (tauev := nsub (get 0%R td [k - 1]) _).
+  set (tdn := set td [k] v). set (tdn' := set td' [k] v).
+  assert (Htdn : get 0%R tdn' [k] = get 0%R tdn [k]).
+  { unfold tdn, tdn'. rewrite (get1_set_same td M k v W S ltac:(lia)).
+    rewrite (get1_set_same td' M' k v W' S' ltac:(lia)). reflexivity. }
+  destruct (blk_z_transpose_of_blk_x nz nx dx dz grad vzero xsa zsa dxi dx2i (zsi + 1) dzd 1 1 (k - 1) k
+              vref tauv tauev tdn tdn' tt tt' sg sg' HT HS ltac:(lia) ltac:(lia) ltac:(lia) Htdn) as [HT1 HS1].
+  match type of HT1 with RelTTt _ _ (fst ?b) (fst ?b') => set (B1 := b) in *; set (B1' := b') in * end.
+  destruct (blk_z_transpose_of_blk_x nz nx dx dz grad vzero xsa zsa dxi dx2i zsi dzu (-1) 1 (k - 1) k
+              vref tauv tauev tdn tdn' (fst B1) (fst B1') (snd B1) (snd B1') HT1 HS1
+              ltac:(lia) ltac:(lia) ltac:(lia) Htdn) as [HT2 HS2].
+  split; [apply wf_set, W|]. split; [apply wf_set, W'|]. split; [exact S|]. split; [exact S'|].
+  split; [first [exact Htdn | reflexivity]|]. split; [exact HT2 | exact HS2].
+Qed.
+
+Lemma west_up_step nz nx M M' (dx dz : R) grad slow slow' (vzero xsa zsa : R) zsi (dzu dzd dxi dx2i : R) k st st' :
+  RelSLt nz nx slow slow' -> nx <= M -> nx <= M' -> 0 <= zsi < nz - 1 -> 0 <= k < nx - 1 ->
+  SimT nz nx M M' grad (k + 1) st st' ->
+  SimT nz nx M M' grad k
+    (west_body dx dz grad slow vzero xsa zsa zsi dzu dzd dxi dx2i k st)
+    (up_body dz dx grad slow' vzero zsa xsa zsi dzu dzd dxi dx2i k st').
+Proof.
+  intros HSL HM HM' Hzsi Hk. destruct st as [[td tt] sg], st' as [[td' tt'] sg'].
+  unfold SimT. cbn [fst snd]. intros (W & W' & S & S' & Htd & HT & HS).
+  cbv beta zeta delta [west_body up_body]. cbn [fst snd].
+  change (@nofZ R NumR 0) with 0%R.
+  rewrite (relSLt_get nz nx slow slow' zsi k HSL Hzsi ltac:(lia)).
+  set (vref := get 0%R slow [zsi; k]).
+  rewrite Htd.
+  set (v := nadd (get 0%R td [k + 1]) (nmul dx vref)).
+  rewrite (get1_set_same td M k v W S ltac:(lia)).
+  rewrite (get1_set_same td' M' k v W' S' ltac:(lia)).
+  rewrite (get1_set_other td M k (k + 1) v S ltac:(lia) ltac:(lia) ltac:(lia)).
+  rewrite (get1_set_other td' M' k (k + 1) v S' ltac:(lia) ltac:(lia) ltac:(lia)).
+  rewrite Htd.
+  set (tauv := nsub v _). set (tauev := nsub (get 0%R td [k + 1]) _).
+  set (tdn := set td [k] v). set (tdn' := set td' [k] v).
+  assert (Htdn : get 0%R tdn' [k] = get 0%R tdn [k]).
+  { unfold tdn, tdn'. rewrite (get1_set_same td M k v W S ltac:(lia)).
+    rewrite (get1_set_same td' M' k v W' S' ltac:(lia)). reflexivity. }
+  destruct (blk_z_transpose_of_blk_x nz nx dx dz grad vzero xsa zsa dxi dx2i (zsi + 1) dzd 1 (-1) (k + 1) k
+              vref tauv tauev tdn tdn' tt tt' sg sg' HT HS ltac:(lia) ltac:(lia) ltac:(lia) Htdn) as [HT1 HS1].
+  match type of HT1 with RelTTt _ _ (fst ?b) (fst ?b') => set (B1 := b) in *; set (B1' := b') in * end.
+  destruct (blk_z_transpose_of_blk_x nz nx dx dz grad vzero xsa zsa dxi dx2i zsi dzu (-1) (-1) (k + 1) k
+              vref tauv tauev tdn tdn' (fst B1) (fst B1') (snd B1) (snd B1') HT1 HS1
+              ltac:(lia) ltac:(lia) ltac:(lia) Htdn) as [HT2 HS2].
+  split; [apply wf_set, W|]. split; [apply wf_set, W'|]. split; [exact S|]. split; [exact S'|].
+  split; [first [exact Htdn | reflexivity]|]. split; [exact HT2 | exact HS2].
+Qed.
+
+(* (b) DOWN IS THE TRANSPOSE OF EAST: the down phase run on the transposed problem (dz <-> dx, nz <-> nx,
+   zsa <-> xsa, zsi <-> xsi, dzu <-> dxw, dzd <-> dxe, transposed grids) yields the transpose of the east phase *)
+Theorem down_is_transpose_of_east nz nx M M' (dx dz : R) grad slow slow' (vzero xsa : R) xsi (zsa : R) zsi
+    (dzu dzd dxe : R) td td' tt tt' sg sg' :
+  RelSLt nz nx slow slow' ->
+  wf td -> wf td' -> shape td = [M] -> shape td' = [M'] -> nx <= M -> nx <= M' ->
+  0 <= zsi < nz - 1 -> 0 <= xsi < nx - 1 ->
+  RelTTt nz nx tt tt' -> (grad = true -> RelSGt nz nx sg sg') ->
+  let r := east_phase dx dz grad nx slow vzero xsa xsi zsa zsi dzu dzd dxe (td, tt, sg) in
+  let r' := down_phase dz dx grad nx slow' vzero zsa zsi xsa xsi dzu dzd dxe (td', tt', sg') in
+  RelTTt nz nx (snd (fst r)) (snd (fst r')) /\ (grad = true -> RelSGt nz nx (snd r) (snd r')).
+Proof.
+  intros HSL W W' S S' HM HM' Hzsi Hxsi HT HS r r'. subst r r'.
+  unfold east_phase, down_phase. cbv zeta. cbn [fst snd].
+  rewrite pyrange_up. set (n := Z.to_nat (nx - (xsi + 2))).
+  match goal with |- context [for_list _ (east_body ?a1 ?a2 ?a3 ?a4 ?a5 ?a6 ?a7 ?a8 ?a9 ?a10 ?a11 ?a12) ?s] =>
+    match goal with |- context [for_list _ (down_body _ _ _ ?sl' _ _ _ _ _ _ _ _) ?s'] =>
+      pose proof (for_list_sim (fun k => SimT nz nx M M' grad (k - 1))
+                    (east_body a1 a2 a3 a4 a5 a6 a7 a8 a9 a10 a11 a12)
+                    (down_body a2 a1 a3 sl' a5 a7 a6 a8 a9 a10 a11 a12)
+                    (fun x => x) (fun x => x) n (xsi + 2) s s') as L end end.
+  rewrite !map_id in L.
+  destruct L as (_ & _ & _ & _ & _ & HT' & HS'); [| |split; assumption].
+  - unfold SimT. cbn [fst snd].
+    split; [apply wf_set, W|]. split; [apply wf_set, W'|]. split; [exact S|]. split; [exact S'|].
+    split; [|split; assumption].
+    replace (xsi + 2 - 1) with (xsi + 1) by lia.
+    rewrite (get1_set_same td M (xsi + 1) _ W S ltac:(lia)).
+    rewrite (get1_set_same td' M' (xsi + 1) _ W' S' ltac:(lia)). reflexivity.
+  - intros p x y Hp Hxy. replace (p + 1 - 1) with p by lia. apply east_down_step; auto. lia.
+Qed.
+
+(* (b') UP IS THE TRANSPOSE OF WEST *)
+Theorem up_is_transpose_of_west nz nx M M' (dx dz : R) grad slow slow' (vzero xsa : R) xsi (zsa : R) zsi
+    (dzu dzd dxw : R) td td' tt tt' sg sg' :
+  RelSLt nz nx slow slow' ->
+  wf td -> wf td' -> shape td = [M] -> shape td' = [M'] -> nx <= M -> nx <= M' ->
+  0 <= zsi < nz - 1 -> 0 <= xsi < nx - 1 ->
+  RelTTt nz nx tt tt' -> (grad = true -> RelSGt nz nx sg sg') ->
+  let r := west_phase dx dz grad slow vzero xsa xsi zsa zsi dzu dzd dxw (td, tt, sg) in
+  let r' := up_phase dz dx grad slow' vzero zsa zsi xsa xsi dzu dzd dxw (td', tt', sg') in
+  RelTTt nz nx (snd (fst r)) (snd (fst r')) /\ (grad = true -> RelSGt nz nx (snd r) (snd r')).
+Proof.
+  intros HSL W W' S S' HM HM' Hzsi Hxsi HT HS r r'. subst r r'.
+  unfold west_phase, up_phase. cbv zeta. cbn [fst snd].
+  rewrite (pyrange_down (xsi - 1) (xsi - 1)). replace (xsi - 1 - (xsi - 1)) with 0 by lia.
+  set (n := Z.to_nat (xsi - 1 + 1)).
+  match goal with |- context [for_list _ (west_body ?a1 ?a2 ?a3 ?a4 ?a5 ?a6 ?a7 ?a8 ?a9 ?a10 ?a11 ?a12) ?s] =>
+    match goal with |- context [for_list _ (up_body _ _ _ ?sl' _ _ _ _ _ _ _ _) ?s'] =>
+      pose proof (for_list_sim (fun q => SimT nz nx M M' grad (xsi - q))
+                    (west_body a1 a2 a3 a4 a5 a6 a7 a8 a9 a10 a11 a12)
+                    (up_body a2 a1 a3 sl' a5 a7 a6 a8 a9 a10 a11 a12)
+                    (fun i => xsi - 1 - i) (fun i => xsi - 1 - i) n 0 s s') as L end end.
+  destruct L as (_ & _ & _ & _ & _ & HT' & HS'); [| |split; assumption].
+  - unfold SimT. cbn [fst snd].
+    split; [apply wf_set, W|]. split; [apply wf_set, W'|]. split; [exact S|]. split; [exact S'|].
+    split; [|split; assumption].
+    replace (xsi - 0) with xsi by lia.
+    rewrite (get1_set_same td M xsi _ W S ltac:(lia)).
+    rewrite (get1_set_same td' M' xsi _ W' S' ltac:(lia)). reflexivity.
+  - intros p x y Hp Hxy. replace (xsi - (p + 1)) with (xsi - 1 - p) by lia.
+    apply west_up_step; auto; [lia|]. replace (xsi - 1 - p + 1) with (xsi - p) by lia. exact Hxy.
+Qed.
+
+(* ========================================================================================== *)
+(* 7. z-mirror: up is the mirror image of down                                                   *)
+(* ========================================================================================== *)
+Lemma blk_z_mirror_z nz nx (dx dz : R) grad (vzero xsa zsa zsa' dzi dz2i : R) col (dxw : R) sgz sgx ip i ip' i'
+      (vref taue tauev : R) (td td' tt tt' : arr R) (sg sg' : arr Z) :
+  RelTTz nz nx tt tt' -> (grad = true -> RelSGz nz nx sg sg') ->
+  0 <= col < nx -> 0 <= i < nz -> 0 <= ip < nz -> i' = nz - 1 - i -> ip' = nz - 1 - ip ->
+  zsa' = (IZR (nz - 1) - zsa)%R ->
+  get 0%R td' [i'] = get 0%R td [i] ->
+  let r := blk_z dx dz grad vzero xsa zsa dzi dz2i col dxw sgz sgx ip i vref taue tauev td tt sg in
+  let r' := blk_z dx dz grad vzero xsa zsa' dzi dz2i col dxw (- sgz) sgx ip' i' vref taue tauev td' tt' sg' in
+  RelTTz nz nx (fst r) (fst r') /\ (grad = true -> RelSGz nz nx (snd r) (snd r')).
+Proof.
+  intros HT HS Hcol Hi Hip Ei Eip Ezsa Htd r r'. subst r r'. unfold blk_z. cbv zeta.
+  assert (G1 : get 0%R tt' [ip'; col] = get 0%R tt [ip; col]) by (eapply relTTz_get; eauto).
+  assert (G2 : get 0%R tt' [i'; col] = get 0%R tt [i; col]) by (eapply relTTz_get; eauto).
+  assert (C1 : (IZR ip' - zsa' = - (IZR ip - zsa))%R) by (subst ip' zsa'; apply mir_coord).
+  assert (C2 : (IZR i' - zsa' = - (IZR i - zsa))%R) by (subst i' zsa'; apply mir_coord).
+  change (@nofZ R NumR 0) with 0%R.
+  rewrite G1, G2, Htd.
+  rewrite (t_ana_mirror_z ip ip' col dz dx zsa zsa' xsa vzero C1).
+  rewrite (t_anad_mirror_z i i' col dz dx zsa zsa' xsa vzero C2).
+  destruct (t_anad i col dz dx zsa xsa vzero) as [[t0c tzc] txc]. cbn [fst snd].
+  rewrite delta_mirror_z.
+  match goal with |- context [if ?c then _ else _] => destruct c end; [|split; [exact HT | exact HS]].
+  match goal with |- context [if ?c then _ else _] => destruct c end; cbn [fst snd]; [|split; [exact HT | exact HS]].
+  split.
+  - apply relTTz_set; assumption.
+  - intros Hg. rewrite Hg. apply relSGz_set2; auto.
+Qed.
+
+Definition SimZ (nz nx M M' : Z) (grad : bool) (k : Z) (st st' : arr R * arr R * arr Z) : Prop :=
+  wf (fst (fst st)) /\ wf (fst (fst st')) /\ shape (fst (fst st)) = [M] /\ shape (fst (fst st')) = [M'] /\
+  get 0%R (fst (fst st')) [nz - k] = get 0%R (fst (fst st)) [k - 1] /\
+  RelTTz nz nx (snd (fst st)) (snd (fst st')) /\
+  (grad = true -> RelSGz nz nx (snd st) (snd st')).
+
+Lemma down_up_step nz nx M M' (dx dz : R) grad slow slow' (vzero xsa zsa zsa' : R) xsi (dxw dxe dzi dz2i : R) k st st' :
+  RelSLz nz nx slow slow' -> nz <= M -> nz <= M' -> 0 <= xsi < nx - 1 -> 1 <= k < nz ->
+  zsa' = (IZR (nz - 1) - zsa)%R ->
+  SimZ nz nx M M' grad k st st' ->
+  SimZ nz nx M M' grad (k + 1)
+    (down_body dx dz grad slow vzero xsa zsa xsi dxw dxe dzi dz2i k st)
+    (up_body dx dz grad slow' vzero xsa zsa' xsi dxw dxe dzi dz2i (nz - 1 - k) st').
+Proof.
+  intros HSL HM HM' Hxsi Hk Ezsa. destruct st as [[td tt] sg], st' as [[td' tt'] sg'].
+  unfold SimZ. cbn [fst snd]. intros (W & W' & S & S' & Htd & HT & HS).
+  cbv beta zeta delta [down_body up_body]. cbn [fst snd].
+  change (@nofZ R NumR 0) with 0%R.
+  set (i' := nz - 1 - k).
+  set (vref := get 0%R slow [k - 1; xsi]).
+  assert (Ev : get 0%R slow' [i'; xsi] = vref).
+  { apply (arel_get 0%R _ _ _ slow slow' [k - 1; xsi] [i'; xsi] HSL).
+    - apply dom2_intro; lia.
+    - unfold fmz, i'. idx_eq. }
+  rewrite Ev. replace (i' + 1) with (nz - k) by (unfold i'; lia). rewrite Htd.
+  set (v := nadd (get 0%R td [k - 1]) (nmul dz vref)).
+  rewrite (get1_set_same td M k v W S ltac:(lia)).
+  rewrite (get1_set_same td' M' i' v W' S' ltac:(unfold i'; lia)).
+  rewrite (get1_set_other td M k (k - 1) v S ltac:(lia) ltac:(lia) ltac:(lia)).
+  rewrite (get1_set_other td' M' i' (nz - k) v S' ltac:(unfold i'; lia) ltac:(lia) ltac:(unfold i'; lia)).
+  rewrite Htd.
+  assert (C2 : (IZR i' - zsa' = - (IZR k - zsa))%R) by (unfold i'; subst zsa'; apply mir_coord).
+  assert (A1 : nabs (nsub (nofZ i') zsa') = nabs (nsub (nofZ k) zsa)).
+  { numR'. apply abs_mirror. exact C2. }
+  assert (A2 : nabs (nadd (nsub (nofZ i') zsa') (nofZ 1)) = nabs (nsub (nsub (nofZ k) zsa) (nofZ 1))).
+  { numR'. apply abs_mirror. lra. }
+  rewrite A1, A2.
+  set (taue := nsub v _). set (tauev := nsub (get 0%R td [k - 1]) _).
+  set (tdn := set td [k] v). set (tdn' := set td' [i'] v).
+  assert (Htdn : get 0%R tdn' [i'] = get 0%R tdn [k]).
+  { unfold tdn, tdn'. rewrite (get1_set_same td M k v W S ltac:(lia)).
+    rewrite (get1_set_same td' M' i' v W' S' ltac:(unfold i'; lia)). reflexivity. }
+  destruct (blk_z_mirror_z nz nx dx dz grad vzero xsa zsa zsa' dzi dz2i (xsi + 1) dxe 1 1 (k - 1) k (nz - k) i'
+              vref taue tauev tdn tdn' tt tt' sg sg' HT HS ltac:(lia) ltac:(lia) ltac:(lia) eq_refl
+              ltac:(lia) Ezsa Htdn) as [HT1 HS1].
+  match type of HT1 with RelTTz _ _ (fst ?b) (fst ?b') => set (B1 := b) in *; set (B1' := b') in * end.
+  destruct (blk_z_mirror_z nz nx dx dz grad vzero xsa zsa zsa' dzi dz2i xsi dxw 1 (-1) (k - 1) k (nz - k) i'
+              vref taue tauev tdn tdn' (fst B1) (fst B1') (snd B1) (snd B1') HT1 HS1 ltac:(lia) ltac:(lia) ltac:(lia) eq_refl
+              ltac:(lia) Ezsa Htdn) as [HT2 HS2].
+  split; [apply wf_set, W|]. split; [apply wf_set, W'|]. split; [exact S|]. split; [exact S'|].
+  split; [|split; [exact HT2 | exact HS2]].
+  replace (nz - (k + 1)) with i' by (unfold i'; lia). replace (k + 1 - 1) with k by lia.
+  first [exact Htdn | reflexivity].
+Qed.
+
+(* (c) UP IS THE MIRROR IMAGE OF DOWN *)
+Theorem up_is_mirror_of_down nz nx M M' (dx dz : R) grad slow slow' (vzero xsa : R) xsi (zsa zsa' : R) zsi zsi'
+    (dxw dxe dzd : R) td td' tt tt' sg sg' :
+  RelSLz nz nx slow slow' ->
+  wf td -> wf td' -> shape td = [M] -> shape td' = [M'] -> nz <= M -> nz <= M' ->
+  0 <= zsi < nz - 1 -> 0 <= xsi < nx - 1 ->
+  zsa' = (IZR (nz - 1) - zsa)%R -> zsi' = nz - 2 - zsi ->
+  RelTTz nz nx tt tt' -> (grad = true -> RelSGz nz nx sg sg') ->
+  let r := down_phase dx dz grad nz slow vzero xsa xsi zsa zsi dxw dxe dzd (td, tt, sg) in
+  let r' := up_phase dx dz grad slow' vzero xsa xsi zsa' zsi' dxw dxe dzd (td', tt', sg') in
+  RelTTz nz nx (snd (fst r)) (snd (fst r')) /\ (grad = true -> RelSGz nz nx (snd r) (snd r')).
+Proof.
+  intros HSL W W' S S' HM HM' Hzsi Hxsi Ezsa Ezsi HT HS r r'. subst r r'.
+  unfold down_phase, up_phase. cbv zeta. cbn [fst snd].
+  rewrite pyrange_up, (pyrange_down (zsi' - 1) (nz - 1)).
+  replace (nz - 1 - (zsi' - 1)) with (zsi + 2) by lia.
+  replace (Z.to_nat (zsi' - 1 + 1)) with (Z.to_nat (nz - (zsi + 2))) by (f_equal; lia).
+  set (n := Z.to_nat (nz - (zsi + 2))).
+  assert (En : zsi + 2 + Z.of_nat n = nz) by lia.
+  match goal with |- context [for_list _ (down_body ?a1 ?a2 ?a3 ?a4 ?a5 ?a6 ?a7 ?a8 ?a9 ?a10 ?a11 ?a12) ?s] =>
+    match goal with |- context [for_list _ (up_body _ _ _ ?sl' _ _ ?za' _ _ _ _ _) ?s'] =>
+      pose proof (for_list_sim (SimZ nz nx M M' grad)
+                    (down_body a1 a2 a3 a4 a5 a6 a7 a8 a9 a10 a11 a12)
+                    (up_body a1 a2 a3 sl' a5 a6 za' a8 a9 a10 a11 a12)
+                    (fun x => x) (fun i => nz - 1 - i) n (zsi + 2) s s') as L end end.
+  rewrite En, map_id in L.
+  destruct L as (_ & _ & _ & _ & _ & HT' & HS'); [| |split; assumption].
+  - unfold SimZ. cbn [fst snd].
+    split; [apply wf_set, W|]. split; [apply wf_set, W'|]. split; [exact S|]. split; [exact S'|].
+    split; [|split; assumption].
+    replace (nz - (zsi + 2)) with zsi' by lia. replace (zsi + 2 - 1) with (zsi + 1) by lia.
+    rewrite (get1_set_same td M (zsi + 1) _ W S ltac:(lia)).
+    rewrite (get1_set_same td' M' zsi' _ W' S' ltac:(lia)). reflexivity.
+  - intros p x y Hp Hxy. apply down_up_step; auto. lia.
+Qed.
+
+(* ========================================================================================== *)
+(* 8. the geometric maps as functions; the pairing theorems in explicit form                    *)
+(* ========================================================================================== *)
+(* arrays tabulated from a function of the indices *)
+Definition tab2 {A} (n0 n1 : Z) (fn : Z -> Z -> A) : arr A :=
+  mkarr [n0; n1] (map (fun q => let q := Z.of_nat q in fn (q / n1) (q mod n1)) (seq 0 (Z.to_nat (n0 * n1)))).
+Definition tab3 {A} (n0 n1 n2 : Z) (fn : Z -> Z -> Z -> A) : arr A :=
+  mkarr [n0; n1; n2]
+    (map (fun q => let q := Z.of_nat q in fn (q / n2 / n1) ((q / n2) mod n1) (q mod n2))
+         (seq 0 (Z.to_nat (n0 * n1 * n2)))).
+
+Lemma wf_tab2 {A} n0 n1 (fn : Z -> Z -> A) : 0 <= n0 -> 0 <= n1 -> wf (tab2 n0 n1 fn).
+Proof. intros H0 H1. split; simpl.
+  - rewrite map_length, seq_length. f_equal. lia.
+  - repeat constructor; assumption. Qed.
+Lemma wf_tab3 {A} n0 n1 n2 (fn : Z -> Z -> Z -> A) : 0 <= n0 -> 0 <= n1 -> 0 <= n2 -> wf (tab3 n0 n1 n2 fn).
+Proof. intros H0 H1 H2. split; simpl.
+  - rewrite map_length, seq_length. f_equal. lia.
+  - repeat constructor; assumption. Qed.
+
+Lemma nth_map_seq {A} (F : nat -> A) n q d : (q < n)%nat -> nth q (map F (seq 0 n)) d = F q.
+Proof. intros Hq. rewrite (nth_indep _ d (F O)) by (rewrite map_length, seq_length; exact Hq).
+  rewrite map_nth. rewrite seq_nth by exact Hq. reflexivity. Qed.
+
+Lemma get_tab2 {A} (d : A) n0 n1 fn i j : 0 <= i < n0 -> 0 <= j < n1 -> get d (tab2 n0 n1 fn) [i; j] = fn i j.
+Proof.
+  intros Hi Hj. unfold get, tab2. cbn [shape dat flat flat_aux].
+  rewrite nth_map_seq by (apply Nat2Z.inj_lt; rewrite !Z2Nat.id; nia).
+  cbv zeta. rewrite Z2Nat.id by nia.
+  replace ((0 * n0 + i) * n1 + j) with (j + i * n1) by ring.
+  rewrite Z.div_add by lia. rewrite Z.mod_add by lia.
+  rewrite Z.div_small, Z.mod_small by lia. f_equal; lia.
+Qed.
+Lemma get_tab3 {A} (d : A) n0 n1 n2 fn i j k :
+  0 <= i < n0 -> 0 <= j < n1 -> 0 <= k < n2 -> get d (tab3 n0 n1 n2 fn) [i; j; k] = fn i j k.
+Proof.
+  intros Hi Hj Hk. unfold get, tab3. cbn [shape dat flat flat_aux].
+  assert (B1 : 0 <= i * n1 + j /\ i * n1 + j + 1 <= n0 * n1) by nia.
+  assert (B2 : 0 <= (i * n1 + j) * n2 + k /\ (i * n1 + j) * n2 + k + 1 <= n0 * n1 * n2) by nia.
+  replace (((0 * n0 + i) * n1 + j) * n2 + k) with ((i * n1 + j) * n2 + k) by ring.
+  rewrite nth_map_seq by (apply Nat2Z.inj_lt; rewrite !Z2Nat.id; lia).
+  cbv zeta. rewrite Z2Nat.id by lia.
+  replace ((i * n1 + j) * n2 + k) with (k + (j + i * n1) * n2) by ring.
+  rewrite Z.div_add by lia. rewrite Z.mod_add by lia.
+  rewrite (Z.div_small k n2), (Z.mod_small k n2) by lia. rewrite Z.add_0_l.
+  rewrite Z.div_add by lia. rewrite Z.mod_add by lia.
+  rewrite Z.div_small, Z.mod_small by lia. f_equal; lia.
+Qed.
+
+(* the maps of the task statement *)
+Definition mirror_x (nz nx : Z) (a : arr R) : arr R := tab2 nz nx (fun i j => get 0%R a [i; nx - 1 - j]).
+Definition mirror_z (nz nx : Z) (a : arr R) : arr R := tab2 nz nx (fun i j => get 0%R a [nz - 1 - i; j]).
+Definition transpose (nz nx : Z) (a : arr R) : arr R := tab2 nx nz (fun j i => get 0%R a [i; j]).
+Definition mirror_sgn_x (nz nx : Z) (s : arr Z) : arr Z :=
+  tab3 nz nx 2 (fun i j k => if k =? 1 then - get 0 s [i; nx - 1 - j; k] else get 0 s [i; nx - 1 - j; k]).
+Definition mirror_sgn_z (nz nx : Z) (s : arr Z) : arr Z :=
+  tab3 nz nx 2 (fun i j k => if k =? 0 then - get 0 s [nz - 1 - i; j; k] else get 0 s [nz - 1 - i; j; k]).
+Definition transpose_sgn (nz nx : Z) (s : arr Z) : arr Z := tab3 nx nz 2 (fun j i k => get 0 s [i; j; 1 - k]).
+
+Ltac arel_tab :=
+  repeat match goal with
+  | |- wf (tab2 _ _ _) => apply wf_tab2; lia
+  | |- wf (tab3 _ _ _ _) => apply wf_tab3; lia
+  | |- _ /\ _ => split
+  | |- wf _ => assumption
+  end.
+
+Lemma mirror_x_rel nz nx a : wf a -> shape a = [nz; nx] -> RelTTx nz nx a (mirror_x nz nx a).
+Proof.
+  intros W S. assert (0 <= nz /\ 0 <= nx) as [? ?] by (destruct W as [_ F]; rewrite S in F; inversion F as [|? ? ? F']; inversion F'; auto).
+  unfold RelTTx, arel, mirror_x. arel_tab.
+  - intros ix (i & j & -> & Hi & Hj). split; [eapply inb2_true; eauto | ].
+    unfold fmx. eapply inb2_true; [reflexivity | lia | lia].
+  - intros ix (i & j & -> & Hi & Hj). unfold fmx, gid. rewrite get_tab2 by lia. f_equal. idx_eq.
+Qed.
+Lemma mirror_z_rel nz nx a : wf a -> shape a = [nz; nx] -> RelTTz nz nx a (mirror_z nz nx a).
+Proof.
+  intros W S. assert (0 <= nz /\ 0 <= nx) as [? ?] by (destruct W as [_ F]; rewrite S in F; inversion F as [|? ? ? F']; inversion F'; auto).
+  unfold RelTTz, arel, mirror_z. arel_tab.
+  - intros ix (i & j & -> & Hi & Hj). split; [eapply inb2_true; eauto | ].
+    unfold fmz. eapply inb2_true; [reflexivity | lia | lia].
+  - intros ix (i & j & -> & Hi & Hj). unfold fmz, gid. rewrite get_tab2 by lia. f_equal. idx_eq.
+Qed.
+Lemma transpose_rel nz nx a : wf a -> shape a = [nz; nx] -> RelTTt nz nx a (transpose nz nx a).
+Proof.
+  intros W S. assert (0 <= nz /\ 0 <= nx) as [? ?] by (destruct W as [_ F]; rewrite S in F; inversion F as [|? ? ? F']; inversion F'; auto).
+  unfold RelTTt, arel, transpose. arel_tab.
+  - intros ix (i & j & -> & Hi & Hj). split; [eapply inb2_true; eauto | ].
+    unfold ftr. eapply inb2_true; [reflexivity | lia | lia].
+  - intros ix (i & j & -> & Hi & Hj). unfold ftr, gid. rewrite get_tab2 by lia. reflexivity.
+Qed.
+(* the cells of the medium: one row / column less *)
+Lemma mirror_x_slow_rel nz nx a : wf a -> shape a = [nz - 1; nx - 1] -> RelSLx nz nx a (mirror_x (nz - 1) (nx - 1) a).
+Proof. apply mirror_x_rel. Qed.
+Lemma mirror_z_slow_rel nz nx a : wf a -> shape a = [nz - 1; nx - 1] -> RelSLz nz nx a (mirror_z (nz - 1) (nx - 1) a).
+Proof. apply mirror_z_rel. Qed.
+Lemma transpose_slow_rel nz nx a : wf a -> shape a = [nz - 1; nx - 1] -> RelSLt nz nx a (transpose (nz - 1) (nx - 1) a).
+Proof. apply transpose_rel. Qed.
+
+Lemma shape3_nonneg {A} (s : arr A) n0 n1 n2 : wf s -> shape s = [n0; n1; n2] -> 0 <= n0 /\ 0 <= n1.
+Proof. intros [_ F] S. rewrite S in F. inversion F as [|? ? ? F']; inversion F'; auto. Qed.
+
+Lemma mirror_sgn_x_rel nz nx s : wf s -> shape s = [nz; nx; 2] -> RelSGx nz nx s (mirror_sgn_x nz nx s).
+Proof.
+  intros W S. destruct (shape3_nonneg s _ _ _ W S).
+  unfold RelSGx, arel, mirror_sgn_x. arel_tab.
+  - intros ix (i & j & k & -> & Hi & Hj & Hk). split; [eapply inb3_true; eauto | ].
+    unfold fmx. eapply inb3_true; [reflexivity | lia | lia | lia].
+  - intros ix (i & j & k & -> & Hi & Hj & Hk). unfold fmx, gneg. rewrite get_tab3 by lia.
+    replace (nx - 1 - (nx - 1 - j)) with j by lia. reflexivity.
+Qed.
+Lemma mirror_sgn_z_rel nz nx s : wf s -> shape s = [nz; nx; 2] -> RelSGz nz nx s (mirror_sgn_z nz nx s).
+Proof.
+  intros W S. destruct (shape3_nonneg s _ _ _ W S).
+  unfold RelSGz, arel, mirror_sgn_z. arel_tab.
+  - intros ix (i & j & k & -> & Hi & Hj & Hk). split; [eapply inb3_true; eauto | ].
+    unfold fmz. eapply inb3_true; [reflexivity | lia | lia | lia].
+  - intros ix (i & j & k & -> & Hi & Hj & Hk). unfold fmz, gneg. rewrite get_tab3 by lia.
+    replace (nz - 1 - (nz - 1 - i)) with i by lia. reflexivity.
+Qed.
+Lemma transpose_sgn_rel nz nx s : wf s -> shape s = [nz; nx; 2] -> RelSGt nz nx s (transpose_sgn nz nx s).
+Proof.
+  intros W S. destruct (shape3_nonneg s _ _ _ W S).
+  unfold RelSGt, arel, transpose_sgn. arel_tab.
+  - intros ix (i & j & k & -> & Hi & Hj & Hk). split; [eapply inb3_true; eauto | ].
+    unfold ftr. eapply inb3_true; [reflexivity | lia | lia | lia].
+  - intros ix (i & j & k & -> & Hi & Hj & Hk). unfold ftr, gid. rewrite get_tab3 by lia.
+    replace (1 - (1 - k)) with k by lia. reflexivity.
+Qed.
+
+Lemma relSGx_get nz nx s s' i j j' k :
+  RelSGx nz nx s s' -> 0 <= i < nz -> 0 <= j < nx -> 0 <= k < 2 -> j' = nx - 1 - j ->
+  get 0 s' [i; j'; k] = if k =? 1 then - get 0 s [i; j; k] else get 0 s [i; j; k].
+Proof. intros H Hi Hj Hk ->.
+  exact (arel_get 0%Z _ _ _ s s' [i; j; k] _ H (dom3_intro _ _ _ _ _ Hi Hj Hk) eq_refl). Qed.
+Lemma relSGz_get nz nx s s' i i' j k :
+  RelSGz nz nx s s' -> 0 <= i < nz -> 0 <= j < nx -> 0 <= k < 2 -> i' = nz - 1 - i ->
+  get 0 s' [i'; j; k] = if k =? 0 then - get 0 s [i; j; k] else get 0 s [i; j; k].
+Proof. intros H Hi Hj Hk ->.
+  exact (arel_get 0%Z _ _ _ s s' [i; j; k] _ H (dom3_intro _ _ _ _ _ Hi Hj Hk) eq_refl). Qed.
+Lemma relSGt_get nz nx s s' i j k :
+  RelSGt nz nx s s' -> 0 <= i < nz -> 0 <= j < nx -> 0 <= k < 2 ->
+  get 0 s' [j; i; 1 - k] = get 0 s [i; j; k].
+Proof. intros H Hi Hj Hk.
+  exact (arel_get 0%Z _ _ _ s s' [i; j; k] _ H (dom3_intro _ _ _ _ _ Hi Hj Hk) eq_refl). Qed.
+
+(* ---- (a) in explicit form: run WEST on the x-mirrored problem, read the result in the mirror ---- *)
+Theorem west_is_mirror_of_east_explicit nz nx M M' (dx dz : R) grad slow (vzero xsa : R) xsi (zsa : R) zsi
+    (dzu dzd dxe : R) td td' tt sg :
+  wf slow -> shape slow = [nz - 1; nx - 1] -> wf tt -> shape tt = [nz; nx] ->
+  (grad = true -> wf sg /\ shape sg = [nz; nx; 2]) ->
+  wf td -> wf td' -> shape td = [M] -> shape td' = [M'] -> nx <= M -> nx <= M' ->
+  0 <= zsi < nz - 1 -> 0 <= xsi < nx - 1 ->
+  let r := east_phase dx dz grad nx slow vzero xsa xsi zsa zsi dzu dzd dxe (td, tt, sg) in
+  let r' := west_phase dx dz grad (mirror_x (nz - 1) (nx - 1) slow) vzero (IZR (nx - 1) - xsa)%R (nx - 2 - xsi)
+              zsa zsi dzu dzd dxe (td', mirror_x nz nx tt, mirror_sgn_x nz nx sg) in
+  (forall i j, 0 <= i < nz -> 0 <= j < nx -> get 0%R (snd (fst r')) [i; j] = get 0%R (snd (fst r)) [i; nx - 1 - j]) /\
+  (grad = true -> forall i j, 0 <= i < nz -> 0 <= j < nx ->
+     get 0 (snd r') [i; j; 0] = get 0 (snd r) [i; nx - 1 - j; 0] /\
+     get 0 (snd r') [i; j; 1] = - get 0 (snd r) [i; nx - 1 - j; 1]).
+Proof.
+  intros Wsl Ssl Wtt Stt Hsg W W' S S' HM HM' Hzsi Hxsi r r'.
+  destruct (west_is_mirror_of_east nz nx M M' dx dz grad slow (mirror_x (nz - 1) (nx - 1) slow) vzero xsa
+              (IZR (nx - 1) - xsa)%R xsi (nx - 2 - xsi) zsa zsi dzu dzd dxe td td' tt (mirror_x nz nx tt)
+              sg (mirror_sgn_x nz nx sg)) as [HT HS]; auto.
+  - apply mirror_x_slow_rel; assumption.
+  - apply mirror_x_rel; assumption.
+  - intros Hg. destruct (Hsg Hg). apply mirror_sgn_x_rel; assumption.
+  - fold r r' in HT, HS. split.
+    + intros i j Hi Hj. apply (relTTx_get nz nx _ _ i (nx - 1 - j) j HT); lia.
+    + intros Hg i j Hi Hj. specialize (HS Hg). split.
+      * rewrite (relSGx_get nz nx _ _ i (nx - 1 - j) j 0 HS) by lia. reflexivity.
+      * rewrite (relSGx_get nz nx _ _ i (nx - 1 - j) j 1 HS) by lia. reflexivity.
+Qed.
+
+(* ---- (b) in explicit form: run DOWN on the transposed problem, read the result transposed ---- *)
+Theorem down_is_transpose_of_east_explicit nz nx M M' (dx dz : R) grad slow (vzero xsa : R) xsi (zsa : R) zsi
+    (dzu dzd dxe : R) td td' tt sg :
+  wf slow -> shape slow = [nz - 1; nx - 1] -> wf tt -> shape tt = [nz; nx] ->
+  (grad = true -> wf sg /\ shape sg = [nz; nx; 2]) ->
+  wf td -> wf td' -> shape td = [M] -> shape td' = [M'] -> nx <= M -> nx <= M' ->
+  0 <= zsi < nz - 1 -> 0 <= xsi < nx - 1 ->
+  let r := east_phase dx dz grad nx slow vzero xsa xsi zsa zsi dzu dzd dxe (td, tt, sg) in
+  let r' := down_phase dz dx grad nx (transpose (nz - 1) (nx - 1) slow) vzero zsa zsi xsa xsi dzu dzd dxe
+              (td', transpose nz nx tt, transpose_sgn nz nx sg) in
+  (forall i j, 0 <= i < nz -> 0 <= j < nx -> get 0%R (snd (fst r')) [j; i] = get 0%R (snd (fst r)) [i; j]) /\
+  (grad = true -> forall i j, 0 <= i < nz -> 0 <= j < nx ->
+     get 0 (snd r') [j; i; 1] = get 0 (snd r) [i; j; 0] /\
+     get 0 (snd r') [j; i; 0] = get 0 (snd r) [i; j; 1]).
+Proof.
+  intros Wsl Ssl Wtt Stt Hsg W W' S S' HM HM' Hzsi Hxsi r r'.
+  destruct (down_is_transpose_of_east nz nx M M' dx dz grad slow (transpose (nz - 1) (nx - 1) slow) vzero xsa
+              xsi zsa zsi dzu dzd dxe td td' tt (transpose nz nx tt) sg (transpose_sgn nz nx sg)) as [HT HS]; auto.
+  - apply transpose_slow_rel; assumption.
+  - apply transpose_rel; assumption.
+  - intros Hg. destruct (Hsg Hg). apply transpose_sgn_rel; assumption.
+  - fold r r' in HT, HS. split.
+    + intros i j Hi Hj. apply (relTTt_get nz nx _ _ i j HT); lia.
+    + intros Hg i j Hi Hj. specialize (HS Hg). split.
+      * exact (relSGt_get nz nx _ _ i j 0 HS Hi Hj ltac:(lia)).
+      * exact (relSGt_get nz nx _ _ i j 1 HS Hi Hj ltac:(lia)).
+Qed.
+
+(* ---- (b') in explicit form ---- *)
+Theorem up_is_transpose_of_west_explicit nz nx M M' (dx dz : R) grad slow (vzero xsa : R) xsi (zsa : R) zsi
+    (dzu dzd dxw : R) td td' tt sg :
+  wf slow -> shape slow = [nz - 1; nx - 1] -> wf tt -> shape tt = [nz; nx] ->
+  (grad = true -> wf sg /\ shape sg = [nz; nx; 2]) ->
+  wf td -> wf td' -> shape td = [M] -> shape td' = [M'] -> nx <= M -> nx <= M' ->
+  0 <= zsi < nz - 1 -> 0 <= xsi < nx - 1 ->
+  let r := west_phase dx dz grad slow vzero xsa xsi zsa zsi dzu dzd dxw (td, tt, sg) in
+  let r' := up_phase dz dx grad (transpose (nz - 1) (nx - 1) slow) vzero zsa zsi xsa xsi dzu dzd dxw
+              (td', transpose nz nx tt, transpose_sgn nz nx sg) in
+  (forall i j, 0 <= i < nz -> 0 <= j < nx -> get 0%R (snd (fst r')) [j; i] = get 0%R (snd (fst r)) [i; j]) /\
+  (grad = true -> forall i j, 0 <= i < nz -> 0 <= j < nx ->
+     get 0 (snd r') [j; i; 1] = get 0 (snd r) [i; j; 0] /\
+     get 0 (snd r') [j; i; 0] = get 0 (snd r) [i; j; 1]).
+Proof.
+  intros Wsl Ssl Wtt Stt Hsg W W' S S' HM HM' Hzsi Hxsi r r'.
+  destruct (up_is_transpose_of_west nz nx M M' dx dz grad slow (transpose (nz - 1) (nx - 1) slow) vzero xsa
+              xsi zsa zsi dzu dzd dxw td td' tt (transpose nz nx tt) sg (transpose_sgn nz nx sg)) as [HT HS]; auto.
+  - apply transpose_slow_rel; assumption.
+  - apply transpose_rel; assumption.
+  - intros Hg. destruct (Hsg Hg). apply transpose_sgn_rel; assumption.
+  - fold r r' in HT, HS. split.
+    + intros i j Hi Hj. apply (relTTt_get nz nx _ _ i j HT); lia.
+    + intros Hg i j Hi Hj. specialize (HS Hg). split.
+      * exact (relSGt_get nz nx _ _ i j 0 HS Hi Hj ltac:(lia)).
+      * exact (relSGt_get nz nx _ _ i j 1 HS Hi Hj ltac:(lia)).
+Qed.
+
+(* ---- (c) in explicit form: run UP on the z-mirrored problem ---- *)
+Theorem up_is_mirror_of_down_explicit nz nx M M' (dx dz : R) grad slow (vzero xsa : R) xsi (zsa : R) zsi
+    (dxw dxe dzd : R) td td' tt sg :
+  wf slow -> shape slow = [nz - 1; nx - 1] -> wf tt -> shape tt = [nz; nx] ->
+  (grad = true -> wf sg /\ shape sg = [nz; nx; 2]) ->
+  wf td -> wf td' -> shape td = [M] -> shape td' = [M'] -> nz <= M -> nz <= M' ->
+  0 <= zsi < nz - 1 -> 0 <= xsi < nx - 1 ->
+  let r := down_phase dx dz grad nz slow vzero xsa xsi zsa zsi dxw dxe dzd (td, tt, sg) in
+  let r' := up_phase dx dz grad (mirror_z (nz - 1) (nx - 1) slow) vzero xsa xsi (IZR (nz - 1) - zsa)%R (nz - 2 - zsi)
+              dxw dxe dzd (td', mirror_z nz nx tt, mirror_sgn_z nz nx sg) in
+  (forall i j, 0 <= i < nz -> 0 <= j < nx -> get 0%R (snd (fst r')) [i; j] = get 0%R (snd (fst r)) [nz - 1 - i; j]) /\
+  (grad = true -> forall i j, 0 <= i < nz -> 0 <= j < nx ->
+     get 0 (snd r') [i; j; 0] = - get 0 (snd r) [nz - 1 - i; j; 0] /\
+     get 0 (snd r') [i; j; 1] = get 0 (snd r) [nz - 1 - i; j; 1]).
+Proof.
+  intros Wsl Ssl Wtt Stt Hsg W W' S S' HM HM' Hzsi Hxsi r r'.
+  destruct (up_is_mirror_of_down nz nx M M' dx dz grad slow (mirror_z (nz - 1) (nx - 1) slow) vzero xsa xsi
+              zsa (IZR (nz - 1) - zsa)%R zsi (nz - 2 - zsi) dxw dxe dzd td td' tt (mirror_z nz nx tt)
+              sg (mirror_sgn_z nz nx sg)) as [HT HS]; auto.
+  - apply mirror_z_slow_rel; assumption.
+  - apply mirror_z_rel; assumption.
+  - intros Hg. destruct (Hsg Hg). apply mirror_sgn_z_rel; assumption.
+  - fold r r' in HT, HS. split.
+    + intros i j Hi Hj. apply (relTTz_get nz nx _ _ (nz - 1 - i) i j HT); lia.
+    + intros Hg i j Hi Hj. specialize (HS Hg). split.
+      * rewrite (relSGz_get nz nx _ _ (nz - 1 - i) i j 0 HS) by lia. reflexivity.
+      * rewrite (relSGz_get nz nx _ _ (nz - 1 - i) i j 1 HS) by lia. reflexivity.
+Qed.
+
+(* the fractional distances computed by fteik2d_p2 itself: on the mirrored problem dxw and dxe are exchanged as soon
+   as the source lies in its cell, 0 <= xsa - xsi <= 1 *)
+Lemma mirrored_dxw_is_dxe n (xsa : R) xsi :
+  (0 <= xsa - IZR xsi <= 1)%R ->
+  let xsa' := (IZR (n - 1) - xsa)%R in let xsi' := n - 2 - xsi in
+  nabs (nsub xsa' (nofZ xsi')) = nsub (nofZ 1) (nabs (nsub xsa (nofZ xsi))) /\
+  nsub (nofZ 1) (nabs (nsub xsa' (nofZ xsi'))) = nabs (nsub xsa (nofZ xsi)).
+Proof.
+  intros Hx xsa' xsi'. unfold xsa', xsi'. numR'. rewrite !minus_IZR.
+  rewrite (Rabs_right (xsa - IZR xsi)) by lra.
+  replace (IZR n - 1 - xsa - (IZR n - 2 - IZR xsi))%R with (1 - (xsa - IZR xsi))%R by ring.
+  rewrite Rabs_right by lra. split; ring.
+Qed.
+
+(* ========================================================================================== *)
+(* 9. non-vacuity                                                                               *)
+(* ========================================================================================== *)
+(* the hypotheses of the explicit theorems are satisfiable: a closed instance (4 x 4 nodes, source cell (1, 1)) *)
+Example west_is_mirror_of_east_instance (dx dz vzero xsa zsa dzu dzd dxe : R) :
+  let slow := full [3; 3] 1%R in let tt := full [4; 4] 0%R in let sg := full [4; 4; 2] 0 in
+  let td := full [4] 0%R in
+  let r := east_phase dx dz true 4 slow vzero xsa 1 zsa 1 dzu dzd dxe (td, tt, sg) in
+  let r' := west_phase dx dz true (mirror_x 3 3 slow) vzero (IZR 3 - xsa)%R 1 zsa 1 dzu dzd dxe
+              (td, mirror_x 4 4 tt, mirror_sgn_x 4 4 sg) in
+  forall i j, 0 <= i < 4 -> 0 <= j < 4 -> get 0%R (snd (fst r')) [i; j] = get 0%R (snd (fst r)) [i; 3 - j].
+Proof.
+  intros slow tt sg td r r' i j Hi Hj.
+  destruct (west_is_mirror_of_east_explicit 4 4 4 4 dx dz true slow vzero xsa 1 zsa 1 dzu dzd dxe td td tt sg)
+    as [HT _]; try lia; try reflexivity;
+    try (apply wf_full; repeat constructor; lia).
+  - intros _. split; [apply wf_full; repeat constructor; lia | reflexivity].
+  - exact (HT i j Hi Hj).
+Qed.
+
+(* the four loops do write: the generated function evaluated on the binary64 instance, heterogeneous medium,
+   dz <> dx, source inside cell (1, 1) of a 4 x 4 grid.  East writes column 3, west column 0, down row 3, up row 0,
+   each with its own pair of signs. *)
+Module FloatExample.
+Import PrimFloat.
+Definition ex_slow : arr float := mkarr [3; 3] [1.0; 1.125; 1.25; 0.875; 1.0; 1.375; 1.125; 0.75; 1.0]%float.
+Definition ex_run :=
+  fteik2d_p2 (T := float) 2.0%float 1.0%float true 2 4 4 ex_slow (full [4; 4] Big) (full [4; 4; 2] 0%float)
+    (full [4; 4; 2] 0) 1.0%float 1.25%float 1 1.375%float 1.
+Example four_loops_write :
+  let tt := fst (fst ex_run) in let sg := snd ex_run in
+  map (fun ix => nltb (get 0%float tt ix) Big) [[1; 3]; [2; 3]; [1; 0]; [2; 0]; [3; 1]; [3; 2]; [0; 1]; [0; 2]]
+    = [true; true; true; true; true; true; true; true] /\
+  map (fun ix => (get 0 sg (ix ++ [0]), get 0 sg (ix ++ [1]))) [[1; 3]; [2; 3]; [1; 0]; [2; 0]; [3; 1]; [3; 2]; [0; 1]; [0; 2]]
+    = [(-1, 1); (1, 1); (-1, -1); (1, -1); (1, -1); (1, 1); (-1, -1); (-1, 1)] /\
+  (* and the corners of the grid, which no loop of the block touches, keep the fill value *)
+  map (fun ix => nltb (get 0%float tt ix) Big) [[0; 0]; [0; 3]; [3; 0]; [3; 3]] = [false; false; false; false].
+Proof. vm_compute. repeat split. Qed.
+End FloatExample.
+
+(* ========================================================================================== *)
+Print Assumptions fteik2d_p2_decompose.
+Print Assumptions west_is_mirror_of_east.
+Print Assumptions down_is_transpose_of_east.
+Print Assumptions up_is_transpose_of_west.
+Print Assumptions up_is_mirror_of_down.
+Print Assumptions west_is_mirror_of_east_explicit.
+Print Assumptions down_is_transpose_of_east_explicit.
+Print Assumptions up_is_transpose_of_west_explicit.
+Print Assumptions up_is_mirror_of_down_explicit.
+Print Assumptions FloatExample.four_loops_write.
